@@ -8,7 +8,7 @@
     lr.Parser.Parse / ParseAndBuildAST, for every grammar, table and input. *)
 From Coq Require Import List ZArith.
 From Algo.Grammar Require Import CFG.
-From Algo.C11 Require Import Model ModelPrec ModelSLR ModelLR1 Spec Proofs ProofsTerm ProofsOracle ProofsPrec ProofsPrecExpr ProofsLR0 ProofsSLR ProofsCLR ProofsLALR ProofsChain ProofsChain2 ProofsFuel ProofsGen ProofsClosure1 ProofsComplete.
+From Algo.C11 Require Import Model ModelPrec ModelSLR ModelLR1 Spec Proofs ProofsTerm ProofsOracle ProofsPrec ProofsPrecExpr ProofsLR0 ProofsSLR ProofsCLR ProofsLALR ProofsChain ProofsChain2 ProofsFuel ProofsGen ProofsClosure1 ProofsComplete ProofsCompleteSLR.
 Import ListNotations.
 
 (** Callbacks.  [Parse(tokenF, prodF)] takes two optional callbacks (either may be nil) and
@@ -118,10 +118,10 @@ Proof. intros ops ls o1 o2. apply prec_grouping. Qed.
       ([C11_chain]; only premise: the LR(1) collection completes within the given fuel), tied to the Go code by the same table equality and
       additionally checked per instance on the Go verdicts;
     - completeness (every sentence is accepted; "rejected => not a sentence"): THEOREM for the
-      modelled canonical LR(1) construction ([C11_clr_complete], [C11_clr_recognises_exactly]);
-      NOT proved for the modelled LALR and SLR constructions (it needs, for LALR, that the cores
-      of GOTO do not depend on lookaheads, and for SLR a FOLLOW-based lookahead invariant), so
-      agreement of the three accepted languages remains searched per instance against the oracle
+      modelled canonical LR(1) and SLR constructions ([C11_clr_complete], [C11_slr_complete] and the
+      [_recognises_exactly] corollaries: both accept exactly L(G), hence agree);
+      NOT proved for the modelled LALR construction (it needs that the cores of GOTO do not depend
+      on lookaheads), for which language agreement remains searched per instance against the oracle
       [lang_upto], which is proved exact up to its bound, and against witnessed longer sentences;
     - that constructed tables pass [term_ok]: not proved, evaluated per table. *)
 Definition reduced (G : gram) : Prop :=
@@ -392,6 +392,30 @@ Proof.
   - apply (C11_clr_complete G fuel tbl w Hv Hb).
 Qed.
 
+(** COMPLETENESS of the modelled SLR(1) construction, same statement: the reduce entries are found
+    through FOLLOW (closed under its rules at the fixpoint, which its fuel is proved to reach), the
+    LR(0) CLOSURE is closed, and the table is conflict-free. *)
+Theorem C11_slr_complete :
+  forall (G : gram) (fuel : nat) (tbl : table) (w : list nat),
+    valid_grammar G -> build_slr fuel G [] = BuiltOk tbl -> L G w ->
+    exists f evs, parse f tbl w = Accepted evs.
+Proof.
+  intros G fuel tbl w Hv Hb HL. destruct (canonical fuel G) as [C|] eqn:EC.
+  - exact (slr_complete G Hv fuel C EC tbl Hb w HL).
+  - unfold build_slr, slr_raw in Hb. rewrite EC in Hb. discriminate.
+Qed.
+
+Theorem C11_slr_recognises_exactly :
+  forall (G : gram) (fuel : nat) (tbl : table) (w : list nat),
+    valid_grammar G -> build_slr fuel G [] = BuiltOk tbl ->
+    ((exists f evs, parse f tbl w = Accepted evs) <-> L G w).
+Proof.
+  intros G fuel tbl w Hv Hb. split.
+  - intros [f [evs Hp]].
+    destruct (C11_slr_parser_sound G fuel [] tbl f w evs (proj1 (proj1 Hv)) Hb Hp) as [HL _]. exact HL.
+  - apply (C11_slr_complete G fuel tbl w Hv Hb).
+Qed.
+
 (** Witness checker for long sentences: a production sequence accepted by [lm_check] is a
     leftmost derivation of the string. *)
 Theorem C11_witness_sound :
@@ -478,4 +502,6 @@ Print Assumptions C11_slr_ok_implies_lalr_ok.
 Print Assumptions C11_chain.
 Print Assumptions C11_clr_complete.
 Print Assumptions C11_clr_recognises_exactly.
+Print Assumptions C11_slr_complete.
+Print Assumptions C11_slr_recognises_exactly.
 Print Assumptions C11_d11a_unrepaired_table_refuted.
